@@ -6,8 +6,9 @@
    all arrays of a history; the specification is `step quirks_off`.  V / J are the (opaque) types of a
    value row and of a jd pair; vj, cv are the elementwise format / scale-conversion functions.
    Predicates (Proofs/C04_TimeArray.v):
-     Aligned vj cv R o   there are source positions src into the root's jd pairs R with
-                         jd(o) = map (conversion to o's scale) R[src],  val(o) = map (vj scale fmt) jd(o),
+     Aligned vj cv cvi R o   there are source positions src into the root's jd pairs R such that the k-th jd pair of o
+                         is the root epoch R[src[k]] taken through a chain of scale conversions (cv: root scale -> other
+                         scale, cvi: back; not exact inverses) ending in o's scale,  val(o) = map (vj scale fmt) jd(o),
                          o is 0-dimensional iff its jd is a bare pair, and nothing is left in the hand-over slot
      extends st st'      heap and name table of st' are those of st with new entries appended
      no_stale st ps      along the run of the source's mechanism no tuple index occurs and every view() is
@@ -21,20 +22,20 @@ Open Scope Z_scope.
    iteration / view / copy / deepcopy / subset / insert / scale change / write attempts), every array in
    the store and every array returned is aligned: values, jd1/jd2 selected by the same source indices *)
 Theorem aligned_all_histories :
-  forall (V J : Type) (jeqb : J -> J -> bool) (vj : Z -> Z -> J -> V) (cv : J -> J) (fmt_to : Z -> Z)
+  forall (V J : Type) (jeqb : J -> J -> bool) (vj : Z -> Z -> J -> V) (cv cvi : J -> J) (fmt_to : Z -> Z)
          (cv_iter : bool) (fmt : Z) (R : list J) (ps : list op) (st : state V J) (rs : list (result V J)),
-    run V J jeqb vj cv fmt_to cv_iter quirks_off (init V J jeqb vj quirks_off fmt R) ps = (st, rs) ->
-    Forall (Aligned V J vj cv R) (heap V J st) /\ Forall (res_aligned V J vj cv R) rs.
+    run V J jeqb vj cv cvi fmt_to cv_iter quirks_off (init V J jeqb vj quirks_off fmt R) ps = (st, rs) ->
+    Forall (Aligned V J vj cv cvi R) (heap V J st) /\ Forall (res_aligned V J vj cv cvi R) rs.
 Proof. exact aligned_all. Qed.
 Print Assumptions aligned_all_histories.
 
 (* ... in particular all components have the same length, and len() is the number of epochs (= number of
    source indices, each a valid position of the root) *)
 Theorem length_is_epochs :
-  forall (V J : Type) (jeqb : J -> J -> bool) (vj : Z -> Z -> J -> V) (cv : J -> J) (fmt_to : Z -> Z)
+  forall (V J : Type) (jeqb : J -> J -> bool) (vj : Z -> Z -> J -> V) (cv cvi : J -> J) (fmt_to : Z -> Z)
          (cv_iter : bool) (fmt : Z) (R : list J) (ps : list op) (st : state V J) (rs : list (result V J))
          (o : obj V J),
-    run V J jeqb vj cv fmt_to cv_iter quirks_off (init V J jeqb vj quirks_off fmt R) ps = (st, rs) ->
+    run V J jeqb vj cv cvi fmt_to cv_iter quirks_off (init V J jeqb vj quirks_off fmt R) ps = (st, rs) ->
     In o (heap V J st) ->
     length (o_vals V J o) = length (flat J (o_jd V J o)) /\
     exists src : list nat,
@@ -45,17 +46,17 @@ Print Assumptions length_is_epochs.
 
 (* a write attempt fails and leaves the whole state (all arrays, hidden attributes, caches) unchanged *)
 Theorem immutable :
-  forall (V J : Type) (jeqb : J -> J -> bool) (vj : Z -> Z -> J -> V) (cv : J -> J) (fmt_to : Z -> Z)
+  forall (V J : Type) (jeqb : J -> J -> bool) (vj : Z -> Z -> J -> V) (cv cvi : J -> J) (fmt_to : Z -> Z)
          (cv_iter : bool) (q : quirks) (st : state V J) (k : nat) (w : Z),
-    step V J jeqb vj cv fmt_to cv_iter q st (Write k w) = (st, RErr).
+    step V J jeqb vj cv cvi fmt_to cv_iter q st (Write k w) = (st, RErr).
 Proof. exact write_fails. Qed.
 Print Assumptions immutable.
 
 (* no operation of the specification touches an existing array or name: the store only grows *)
 Theorem objects_never_change :
-  forall (V J : Type) (jeqb : J -> J -> bool) (vj : Z -> Z -> J -> V) (cv : J -> J) (fmt_to : Z -> Z)
+  forall (V J : Type) (jeqb : J -> J -> bool) (vj : Z -> Z -> J -> V) (cv cvi : J -> J) (fmt_to : Z -> Z)
          (cv_iter : bool) (st : state V J) (p : op) (st' : state V J) (r : result V J),
-    step V J jeqb vj cv fmt_to cv_iter quirks_off st p = (st', r) -> extends V J st st'.
+    step V J jeqb vj cv cvi fmt_to cv_iter quirks_off st p = (st', r) -> extends V J st st'.
 Proof. exact step_extends. Qed.
 Print Assumptions objects_never_change.
 
@@ -63,14 +64,14 @@ Print Assumptions objects_never_change.
    between: for every history `before`, every further history `reads` and every operation p on names of
    `before`, p gives the same result before and after `reads` *)
 Theorem history_independent :
-  forall (V J : Type) (jeqb : J -> J -> bool) (vj : Z -> Z -> J -> V) (cv : J -> J) (fmt_to : Z -> Z)
+  forall (V J : Type) (jeqb : J -> J -> bool) (vj : Z -> Z -> J -> V) (cv cvi : J -> J) (fmt_to : Z -> Z)
          (cv_iter : bool) (fmt : Z) (R : list J) (before reads : list op) (p : op)
          (st1 : state V J) (rs1 : list (result V J)) (st2 : state V J) (rs2 : list (result V J)),
-    run V J jeqb vj cv fmt_to cv_iter quirks_off (init V J jeqb vj quirks_off fmt R) before = (st1, rs1) ->
-    run V J jeqb vj cv fmt_to cv_iter quirks_off st1 reads = (st2, rs2) ->
+    run V J jeqb vj cv cvi fmt_to cv_iter quirks_off (init V J jeqb vj quirks_off fmt R) before = (st1, rs1) ->
+    run V J jeqb vj cv cvi fmt_to cv_iter quirks_off st1 reads = (st2, rs2) ->
     Forall (fun k => (k < length (names V J st1))%nat) (op_names p) ->
-    snd (step V J jeqb vj cv fmt_to cv_iter quirks_off st2 p) =
-    snd (step V J jeqb vj cv fmt_to cv_iter quirks_off st1 p).
+    snd (step V J jeqb vj cv cvi fmt_to cv_iter quirks_off st2 p) =
+    snd (step V J jeqb vj cv cvi fmt_to cv_iter quirks_off st1 p).
 Proof. exact history_indep. Qed.
 Print Assumptions history_independent.
 
@@ -88,11 +89,11 @@ Print Assumptions eq_hash.
 (* the mechanism of the source (jd[item] left on the parent for __array_finalize__) gives exactly the
    specification's results on every history without a stale hand-over *)
 Theorem F_agrees_when_fresh :
-  forall (V J : Type) (jeqb : J -> J -> bool) (vj : Z -> Z -> J -> V) (cv : J -> J) (fmt_to : Z -> Z)
+  forall (V J : Type) (jeqb : J -> J -> bool) (vj : Z -> Z -> J -> V) (cv cvi : J -> J) (fmt_to : Z -> Z)
          (cv_iter : bool) (fmt : Z) (R : list J) (ps : list op),
-    no_stale V J jeqb vj cv fmt_to cv_iter (init V J jeqb vj Qs fmt R) ps ->
-    map (erase_res V J) (snd (run V J jeqb vj cv fmt_to cv_iter Qs (init V J jeqb vj Qs fmt R) ps)) =
-    snd (run V J jeqb vj cv fmt_to cv_iter quirks_off (init V J jeqb vj quirks_off fmt R) ps).
+    no_stale V J jeqb vj cv cvi fmt_to cv_iter (init V J jeqb vj Qs fmt R) ps ->
+    map (erase_res V J) (snd (run V J jeqb vj cv cvi fmt_to cv_iter Qs (init V J jeqb vj Qs fmt R) ps)) =
+    snd (run V J jeqb vj cv cvi fmt_to cv_iter quirks_off (init V J jeqb vj quirks_off fmt R) ps).
 Proof. exact agrees_when_fresh. Qed.
 Print Assumptions F_agrees_when_fresh.
 
@@ -158,8 +159,15 @@ Example ex_cross_scale_insert :
               o_vals _ _ o = map (w_vj 1 0) (flat _ (o_jd _ _ o)).
 Proof. eexists. eexists. split; [vm_compute; reflexivity|]. split; reflexivity. Qed.
 
+(* a converted array inserted into an array of the root's scale: converted back first (cvi), then aligned *)
+Example ex_inverse_insert :
+  exists o b, nth_error (snd (w_run quirks_off (w_init quirks_off 0 w_R) [Scale 0 1; Insert 0 1 1])) 1 = Some (RObj o b) /\
+              flat _ (o_jd _ _ o) = [(1, 11); (1, 12); (2, 13); (3, 14); (4, 15); (2, 12); (3, 13); (4, 14)] /\
+              o_vals _ _ o = map (w_vj 0 0) (flat _ (o_jd _ _ o)).
+Proof. eexists. eexists. split; [vm_compute; reflexivity|]. split; reflexivity. Qed.
+
 Example ex_no_stale :
-  no_stale tV tJ tJ_eqb w_vj w_cv w_fmt_to true (w_init Qs 0 w_R)
+  no_stale tV tJ tJ_eqb w_vj w_cv w_cvi w_fmt_to true (w_init Qs 0 w_R)
            [Get 0 (IInt 0); Get 0 (ISlice (Some 1) None 1); View 1; Copy 0; Iter 2].
 Proof. vm_compute. repeat split. Qed.
 
